@@ -30,3 +30,11 @@ Proof. intros us. apply lives_from. intros m E. discriminate. Qed.
 (* ... and it is not vacuous: a log file with a refused bit does keep the next life from starting *)
 Theorem refused_log_blocks : exists m u, life_log (Some m) u = None.
 Proof. exists 438, 18. vm_compute. reflexivity. Qed.
+
+(* the lock file left by a killed (or any) previous life can be opened again by the next life, root or not *)
+Theorem lock_file_reopens : forall is_root, lock_reopen_ok is_root = true.
+Proof. intros [|]; vm_compute; reflexivity. Qed.
+
+(* non-vacuity: a 0200 file cannot be opened read-write by its non-root owner *)
+Theorem rdwr_reopen_refused : owner_may_open false 128 2 = false.
+Proof. vm_compute. reflexivity. Qed.
